@@ -158,6 +158,11 @@ func famSesWin(t *testing.T, r *Rec) {
 		body = append(body, "sesw release ws.candidate.attach", "sesw frame 0 t 3270726f6265", "sesw frame 0 t 35", "sesw adv 1100")
 		add("candidate-attach-x-"+how, body...)
 	}
+	// the candidate's connection goes away after its reader was started but before MaybeUpgrade listens to it:
+	// once the attempt has timed out the session accepts a new candidate, which completes the switch
+	add("candidate-attach-x-candidate-drop", "sesw hs polling 4 0 -", "sesw arm ws.candidate.attach", "sesw ws s0 4 0", "sesw drop 0",
+		"sesw release ws.candidate.attach", "sesw adv 400", "sesw poll s0", "sesw post s0 t 1 33", "sesw adv 400", "sesw poll s0", "sesw post s0 t 1 33",
+		"sesw adv 300", "sesw ws s0 4 0", "sesw frame 1 t 3270726f6265", "sesw frame 1 t 35", "sesw send s0 t 6869 0 0 -")
 	for _, sc := range scens {
 		detail, res := sesWinRun(t, sc.lines)
 		r.scenarios++
@@ -227,7 +232,12 @@ func famSesWin(t *testing.T, r *Rec) {
 		if want := fmt.Sprintf("%s:%d", ints(live), len(live)); end.reg != want {
 			r.Violate("C04", "C04/window/registry-differs/"+sc.name, fmt.Sprintf("registry %s but live sessions %s", end.reg, want), sc.lines)
 		}
-		if strings.HasPrefix(sc.name, "candidate-attach") && end.ended[0] == "" {
+		if sc.name == "candidate-attach-x-candidate-drop" {
+			if st, ok := end.states[0]; !ok || st[0] != "open" || st[1] != "websocket" || st[2] != "01" {
+				r.Violate("C08", "C08/window/no-upgrade-after-early-closed-candidate", fmt.Sprintf("a candidate whose connection closed before MaybeUpgrade listened to it timed out; a later candidate that follows the protocol left the session %v, want open/websocket/01", end.states[0]), sc.lines)
+			}
+		}
+		if strings.HasPrefix(sc.name, "candidate-attach") && sc.name != "candidate-attach-x-candidate-drop" && end.ended[0] == "" {
 			ended := false
 			for _, out := range detail {
 				if out != "-" && out != "ok" && parseObs(out).ended[0] != "" {
